@@ -498,8 +498,10 @@ func cmdCheck(args []string) int {
 		fmt.Println("NOTE:", n)
 	}
 	if agg.foreign > 0 {
+		// a begin/end-of-block failure whose stack has no frame of the module (e.g. x/staking refusing a voting
+		// power that does not fit an int64): the run ends there, is counted in the evidence and kept as a replay
+		// file, and decides nothing about the property
 		fmt.Printf("NOTE: %d run(s) stopped by a failure outside x/alliance (first: %s)\n", agg.foreign, agg.firstForeign)
-		infra = true
 	}
 	fmt.Printf("%s %s: %d runs, %d non-trivial (%d distinct), %d steps, %.0f s simulated, %d violation class(es), %.1f s wall\n",
 		*prop, *tier, agg.runs, agg.nontrivial, len(agg.sigs), agg.steps, agg.simS, len(classOrder), wall)
